@@ -393,8 +393,9 @@ def fn_catalogue():
          [A(4, 3), A(4, 3), A(4, 3)]),
     ] + [
         (f"{rn}_axis{('N' if ax is None else ax)}_{'keep' if kd else 'drop'}",
-         (lambda x, rf=rf, ax=ax, kd=kd: rf(x, axis=ax, keepdims=kd)), [A(4, 3)])
-        for rn, rf in (("sum", jnp.sum), ("max", jnp.max), ("min", jnp.min), ("mean", jnp.mean), ("amax", jnp.amax))
+         # NB: look the function up at call time — conversion patches the attribute `jax.numpy.<name>`
+         (lambda x, rn=rn, ax=ax, kd=kd: getattr(jnp, rn)(x, axis=ax, keepdims=kd)), [A(4, 3)])
+        for rn in ("sum", "max", "min", "mean", "amax")
         for ax in (0, -1, None) for kd in (False, True)
     ] + [
         ("mlp", lambda x, w: jnp.tanh(jnp.matmul(x, w)) * jnp.sum(x, axis=-1, keepdims=True), [A(4, 3), A(3, 3)]),
